@@ -75,8 +75,8 @@ pub fn check(s: &Scenario) -> CheckResult {
             let want_p = p as f64 + v as f64 * t + a as f64 * t * t / 2.0;
             let (ev, ep) = (R { v: want_v, e: nv.e }, R { v: want_p, e: np.e });
             // intermediates of the f32 evaluation must stay well inside the f32 range for the bound to mean anything
-            let inter = [dts * ra, nv, dts * ((rv + nv) / R::c(2.0))];
-            if inter.iter().any(|r| !(r.v.abs() < 1.0e37)) || !(ev.is_finite() && ep.is_finite()) {
+            let inter = [dts * ra, nv, rv / R::c(2.0) + nv / R::c(2.0), dts * (rv / R::c(2.0) + nv / R::c(2.0)), ev, ep];
+            if inter.iter().any(|r| !(r.v.abs() < 3.0e38)) || !(ev.is_finite() && ep.is_finite()) {
                 return Ok(CaseInfo::new(false, 0).class("update: reference overflows f32 range (skipped)"));
             }
             HEADROOM.observe(ev.ratio(state.velocity));
@@ -280,11 +280,20 @@ impl Property for C14 {
         // arbitrary finite f32s incl. subnormals and values just above zero, and zero/non-zero patterns
         let comp = || prop_oneof![5 => gen::moderate(), 3 => gen::finite_f32(), 1 => (any::<bool>(), -46.0f64..-3.0).prop_map(|(n, e)| { let v = 10f64.powf(e) as f32; if n { -v } else { v } })];
         let triple = move || [comp(), comp(), comp()];
+        // result-targeted: the acceleration (nearly) reverses or cancels the velocity within the step, at any magnitude up to
+        // the top of the f32 range - intermediate terms are huge while the true result is small
+        let reversal = (any::<bool>(), -30.0f64..38.4, prop_oneof![Just(0.5f64), Just(1.0), Just(2.0), Just(4.0), 0.25f64..4.0], -1.0e-3f64..1.0e-3, comp(), prop_oneof![1_000_000_000i64..100_000_000_000_000, -100_000_000_000_000i64..-1_000_000_000])
+            .prop_map(|(neg, e, c, eps, p, dt)| {
+                let v = (10f64.powf(e) * if neg { -1.0 } else { 1.0 }) as f32;
+                let a = (-(c * (1.0 + eps)) * v as f64 / (dt as f64 / 1e9)) as f32;
+                ([p, v, if a.is_finite() { a } else { 0.0 }], dt)
+            });
         let dt = prop_oneof![2 => Just(0i64), 1 => prop_oneof![Just(1i64), Just(-1i64)], 8 => -100_000_000_000_000i64..=100_000_000_000_000i64, 3 => -2_000_000_000i64..2_000_000_000i64];
         let unit = prop_oneof![1 => Just((1i8, 0i8)), 1 => Just((1i8, -1i8)), 1 => Just((1i8, -2i8)), 3 => (-3i8..=3, -3i8..=3)];
-        (triple(), triple(), dt, 0u8..3, 0u8..3, comp(), prop_oneof![3 => gen::moderate_nonzero(), 1 => gen::finite_f32()], unit, proptest::sample::select(forms()))
-            .prop_map(|(s1, s2, dt, k1, k2, v, w, unit, form)| Scenario { s1, s2, dt, k1, k2, v, w, unit, form })
-            .boxed()
+        let general = (triple(), triple(), dt, 0u8..3, 0u8..3, comp(), prop_oneof![3 => gen::moderate_nonzero(), 1 => gen::finite_f32()], unit, proptest::sample::select(forms()))
+            .prop_map(|(s1, s2, dt, k1, k2, v, w, unit, form)| Scenario { s1, s2, dt, k1, k2, v, w, unit, form });
+        let targeted = reversal.prop_map(|(s1, dt)| Scenario { s1, s2: [0.0; 3], dt, k1: 0, k2: 0, v: 0.0, w: 1.0, unit: (1, 0), form: Form::Update });
+        prop_oneof![12 => general, 1 => targeted].boxed()
     }
     fn cases(tier: Tier) -> u32 {
         tier.pick(100_000, 500_000)
